@@ -141,7 +141,10 @@ func (r *RawDB) nodeKeysSorted() []ref.NodeKey {
 func collectFacts(w *World, v *Violation) {
 	defer func() { _ = recover() }()
 	raw := scanRaw(w.visibleDump())
-	facts := map[string]any{}
+	facts := v.Facts
+	if facts == nil {
+		facts = map[string]any{}
+	}
 	var phantom []int64
 	for ver := int64(0); ver <= w.M.Latest+2; ver++ {
 		if w.M.Has(ver) {
@@ -154,4 +157,16 @@ func collectFacts(w *World, v *Violation) {
 	}
 	facts["phantom_root_keys"] = phantom
 	v.Facts = facts
+}
+
+// resolveRootRef resolves the target of a reference root (original or re-keyed).
+func (r *RawDB) resolveRootRef(k ref.NodeKey) (ref.NodeKey, *ref.DiskNode, bool) {
+	if d, ok := r.Nodes[k]; ok {
+		return k, d, true
+	}
+	alt := ref.NodeKey{Version: k.Version, Nonce: 0}
+	if d, ok := r.Nodes[alt]; ok {
+		return alt, d, true
+	}
+	return k, nil, false
 }
